@@ -373,3 +373,44 @@ def model_record(rid, reaction, model, *, aligned=False, do_formula=True, do_par
         rec["icomps"] = []
     rec["closure"] = closure_projection(model, cross_check=(not aligned and len(reaction.transitions) <= 24)) if do_closure else {}
     return rec
+
+
+# ---- reactions of the TLC-enumerated universe (spec/Amplitude_MC.tla) --------------------------------------------------
+def descriptor_spec(desc: dict, formalism="helicity") -> dict | None:
+    """The reaction a descriptor [tree, spin, eta] of Amplitude_MC denotes: the full helicity set over that tree
+    (every assignment with |l1 - l2| <= J at every node), named and numbered as Amplitude_MC!NameOf / EidOf."""
+    tree = sorted((tuple(sorted(S)) for S in desc["tree"]), key=lambda S: (len(S), S))
+    spin = {tuple(sorted(S)): int(v) for S, v in desc["spin"].items()}
+    eta = {tuple(sorted(S)): int(v) for S, v in desc["eta"].items()}
+    root = max(tree, key=len)
+    nfs = len(root)
+    top = None
+    for can in topo.canonical(nfs):
+        for t in topo.variants(can, intermediates=False):
+            if sorted(map(tuple, topo.tree_of(t)), key=lambda S: (len(S), S)) == tree:
+                top = t
+                break
+        if top is not None:
+            break
+    if top is None:
+        return None
+    att = {e: tuple(topo.attached(top, e)) for e in top.edges}
+    name = {S: "A" if S == root else (f"f{S[0]}" if len(S) == 1 else "R" + "".join(map(str, S))) for S in tree}
+    parts = {name[S]: {"spin2": spin[S], "parity": 1, "mass": 3.1 if S == root else ([0.14, 0.5, 0.94, 0.3][S[0]] if len(S) == 1 else 1.2 + 0.1 * len(S))} for S in tree}
+    node_edges = {}
+    for n in top.nodes:
+        pe = next(k for k, e in top.edges.items() if e.ending_node_id == n)
+        ch = sorted((k for k, e in top.edges.items() if e.originating_node_id == n), key=lambda k: att[k])
+        node_edges[n] = (pe, ch)   # ch[0] = helicity child (smaller attached tuple)
+    eids = sorted(top.edges)
+    pools = {e: list(range(-spin[att[e]], spin[att[e]] + 1, 2)) for e in eids}
+    transitions = []
+    for vals in itertools.product(*[pools[e] for e in eids]):
+        h = dict(zip(eids, vals))
+        if all(abs(h[ch[0]] - h[ch[1]]) <= spin[att[pe]] for pe, ch in node_edges.values()):
+            transitions.append({"topology": top, "states": {e: [name[att[e]], h[e]] for e in eids},
+                                "nodes": {n: {"L2": NONE, "S2": NONE, "eta": eta[att[pe]]} for n, (pe, ch) in node_edges.items()}})
+    if not transitions:
+        return None
+    return {"formalism": formalism, "particles": parts, "transitions": transitions,
+            "meta": {"nfs": nfs, "helset": "full", "tree": [list(S) for S in tree], "ntop": 1, "name_by": "set", "twin": None}}
